@@ -134,23 +134,35 @@ impl VCancelToken {
 }
 
 /// `executor::task::spawn`.
-pub fn vtask_spawn<F, S>(future: F, schedule_fn: S) -> (VPromise<F::Output>, VRunnable, VCancelToken)
+///
+/// The scheduling function is a plain function pointer and the tag a `usize`:
+/// the task is moved into uninitialized memory with a plain assignment, which
+/// is only sound for scheduling functions and tags without drop glue (as is
+/// the case for the executors of this crate).
+pub fn vtask_spawn<F>(
+    future: F,
+    schedule_fn: fn(VRunnable, usize),
+    tag: usize,
+) -> (VPromise<F::Output>, VRunnable, VCancelToken)
 where
     F: Future + Send + 'static,
     F::Output: Send + 'static,
-    S: Fn(VRunnable) + Send + Sync + 'static,
 {
-    let (p, r, c) = verif_spawn(future, move |r, _: ()| schedule_fn(VRunnable(r)), ());
+    let (p, r, c) = verif_spawn(future, move |r, t: usize| schedule_fn(VRunnable(r), t), tag);
     (VPromise(p), VRunnable(r), VCancelToken(c))
 }
 
-/// `executor::task::spawn_and_forget`.
-pub fn vtask_spawn_and_forget<F, S>(future: F, schedule_fn: S) -> (VRunnable, VCancelToken)
+/// `executor::task::spawn_and_forget` (see `vtask_spawn`).
+pub fn vtask_spawn_and_forget<F>(
+    future: F,
+    schedule_fn: fn(VRunnable, usize),
+    tag: usize,
+) -> (VRunnable, VCancelToken)
 where
     F: Future + Send + 'static,
     F::Output: Send + 'static,
-    S: Fn(VRunnable) + Send + Sync + 'static,
 {
-    let (r, c) = verif_spawn_and_forget(future, move |r, _: ()| schedule_fn(VRunnable(r)), ());
+    let (r, c) =
+        verif_spawn_and_forget(future, move |r, t: usize| schedule_fn(VRunnable(r), t), tag);
     (VRunnable(r), VCancelToken(c))
 }
